@@ -121,10 +121,24 @@ def run(chk: Check, model):
     chk.used(fi.qualname)
     r = SymEval(model).run_function(fi)
     ret = r.ret
-    ok = ret[0] == "call" and T.call_name(ret) == "jax.numpy.clip" and len(ret[2]) == 3 and ret[2][1] == S("solver.u_min") and ret[2][2] == S("solver.u_max")
+    # leaf-wise view: the tree_map form gives clip(...) directly; the flatten / per-leaf loop / unflatten form wraps it
+    if ret[0] == "call" and T.call_name(ret) == "jax.tree_util.tree_unflatten" and len(ret[2]) == 2 and ret[2][1][0] == "comp" and not ret[2][1][4]:
+        ret = ret[2][1][2]
+
+    def leaf_of(t):
+        """x  /  flatten_up_to(x)[i]  /  tree_leaves(x)[i]  /  tree_flatten(x)[0][i]  ->  x"""
+        if t[0] == "index":
+            b = t[1]
+            if b[0] == "index" and b[2] == T.ZERO and b[1][0] == "call" and T.call_name(b[1]) == "jax.tree_util.tree_flatten":
+                return b[1][2][0]
+            if b[0] == "call" and (T.call_name(b).endswith(".flatten_up_to") or T.call_name(b) == "jax.tree_util.tree_leaves") and len(b[2]) == 1:
+                return b[2][0]
+        return t
+    ok = ret[0] == "call" and T.call_name(ret) == "jax.numpy.clip" and len(ret[2]) == 3 and leaf_of(ret[2][1]) == S("solver.u_min") and leaf_of(ret[2][2]) == S("solver.u_max")
     chk.add("C18.bounds", "CEM samples clipped to [u_min, u_max]", ok, f"gaussian_samples returns {T.show(ret)[:200]}, expected clip(samples, u_min, u_max)", chk.loc(fi))
     if ok:
         inner = ret[2][0]
+        inner = T.subst(inner, {y: leaf_of(y) for y in T.walk(inner) if y[0] == "index" and leaf_of(y) != y})
         noise = [x for x in T.walk(inner) if x[0] == "call" and T.call_name(x) == "jax.random.normal"]
         okn = len(noise) == 1 and inner == T.add(S("state.mean"), T.mul(S("state.stdev"), noise[0]))
         chk.add("C18.bounds", "samples = mean + stdev * noise", okn, f"unclipped samples = {T.show(inner)[:160]}", chk.loc(fi))
